@@ -7,7 +7,7 @@
    position (ks, ko).  stt st i = start time of instruction i. *)
 From Coq Require Import String.
 From Coq Require Import List QArith.
-From QV Require Import Model.Sched Proofs.SchedC11 Proofs.SchedC11Inst.
+From QV Require Import Model.Sched Proofs.SchedC11 Proofs.SchedC11Inst Proofs.SchedCheck.
 Import ListNotations.
 
 (* the scheduler returns one start time per instruction (no exception, no fuel exhaustion) *)
@@ -73,6 +73,29 @@ Theorem total_le_sequential :
   forall i, i < length instrs -> (stt st i + idur (ith instrs i) <= sum_durations instrs)%Q.
 Proof. exact total_le_sequential. Qed.
 Print Assumptions total_le_sequential.
+
+(* a timetable accepted by the executable checker satisfies every clause (used by the harness to validate the
+   REAL scheduler's output inside Coq for lists of more than 8 instructions, where the set iteration order of
+   CPython cannot be tied to the model) *)
+Theorem valid_timetable_sound :
+  forall commI perm instrs st, valid_timetable commI perm instrs st = true ->
+  length st = length instrs /\
+  (forall i, i < length instrs -> (0 <= stt st i)%Q) /\
+  (exists i, i < length instrs /\ (stt st i == 0)%Q) /\
+  (forall i, i < length instrs -> (stt st i + idur (ith instrs i) <= sum_durations instrs)%Q) /\
+  (forall i j, i < j -> j < length instrs -> (exists q, uses (ith instrs i) q /\ uses (ith instrs j) q) ->
+      ((stt st i + idur (ith instrs i) <= stt st j)%Q \/ (stt st j + idur (ith instrs j) <= stt st i)%Q) /\
+      (commN commI perm instrs j i = false -> (stt st i + idur (ith instrs i) <= stt st j)%Q)).
+Proof. exact valid_timetable_sound. Qed.
+Print Assumptions valid_timetable_sound.
+
+Example checker_accepts_fixed_witness :
+  valid_timetable commutation_rules true c11_witness [0; 0; 10]%Q = true.
+Proof. vm_compute. reflexivity. Qed.
+
+Example checker_rejects_shipped_witness :
+  valid_timetable commutation_rules true c11_witness [0; 0; 1]%Q = false.
+Proof. vm_compute. reflexivity. Qed.
 
 (* non-vacuity: the hypotheses are inhabited by a concrete three-instruction list; on it the fixed code
    returns [0; 0; 10] and the dependency clause has a non-trivial instance (RZ q1 before CNOT 0->1) *)
